@@ -50,7 +50,7 @@ PROBES = ["identity_sampler", "counting_sampler", "recording_builtin", "builtin_
 
 SCORE_NAMED = ["tpr", "fnr", "tnr", "fpr", "topr", "tonr", "tar", "frr", "far", "trr", "acceptance_rate", "rejection_rate"]
 THR_AT = ["threshold_at_fpr", "threshold_at_fnr", "threshold_at_tpr", "threshold_at_tnr"]
-CALLABLES = ["mean_pos", "sizes", "fnr_fpr_mat", "py_float", "int_count", "spread", "spread_or_zero"]
+CALLABLES = ["mean_pos", "sizes", "fnr_fpr_mat", "py_float", "int_count", "spread", "spread_or_zero", "max_mult4"]
 GROUP_CALLABLES = ["groupwise_fnr", "group_sizes"]
 
 
@@ -186,14 +186,24 @@ def generate(rnd, tier):
             # replacement); a built-in configuration observed through a recording metric
             sampler = {"sampling_method": "dynamic", "stratified_sampling": rnd.choice(["by_group", "by_group", "by_label", None])}
             metric = {"callable": rnd.choice(GROUP_CALLABLES), "kwargs": {"threshold": {"shape": [], "data": [0.0]}}}
+        if sampler.get("callable") == "counting" and not sampler.get("mixed") and "name" in metric and not is_group and rnd.random() < 0.7:
+            sampler["recycle"] = True
         nb = rnd.randint(1, 12 if big else 60)
         if metric.get("name") == "eer":
             nb = min(nb, 12)
         cfg = {"nb_samples": nb, "bootstrap_method": rnd.choice(["quantile", "bc", "bca"])}
         op = {"op": rnd.choice(["bootstrap_metric", "bootstrap_ci", "bootstrap_ci"]), "metric": metric, "sampler": sampler, "cfg": cfg,
-              "alpha": round(rnd.uniform(0.01, 0.5), 3) if rnd.random() < 0.85 else rnd.choice([0.5, 0.75, 0.95, 0.001, round(rnd.uniform(0.5, 0.99), 2)])}
+              "alpha": round(rnd.uniform(0.01, 0.5), 3) if rnd.random() < 0.85 else rnd.choice([0.5, 0.75, 0.95, 0.001, 1e-5, 1e-7, 1e-9, 1e-12, round(rnd.uniform(0.5, 0.99), 2)])}
         if op["op"] == "bootstrap_ci" and cfg["bootstrap_method"] == "quantile" and rnd.random() < 0.25:
             op["alpha"] = [round(rnd.uniform(0.01, 0.5), 3) for _ in range(rnd.randint(1, 3))]
+        if not is_group and rnd.random() < 0.04:
+            # extreme corner of the bca formula: skewed replicates, levels far in the tails (the corrected levels need not be
+            # ordered there, and the formula says what comes out)
+            metric = {"callable": "max_mult4", "kwargs": {}}
+            sampler = {"callable": "recording", "inner": {"sampling_method": "replacement", "stratified_sampling": None}} if rnd.random() < 0.6 else \
+                {"sampling_method": "replacement", "stratified_sampling": None}
+            cfg = {"nb_samples": rnd.randint(6, 40), "bootstrap_method": "bca"}
+            op = {"op": "bootstrap_ci", "metric": metric, "sampler": sampler, "cfg": cfg, "alpha": rnd.choice([1e-5, 1e-7, 1e-9, 1e-12, 1e-3])}
         if not fault_free and rnd.random() < 0.6:
             builtin = "callable" not in sampler or sampler.get("callable") == "recording"
             op["faults"] = [gen_fault(rnd, "callable" in metric, "callable" in sampler, builtin) for _ in range(rnd.choice([1, 1, 2, 3]))]
@@ -234,6 +244,9 @@ def base_metric(name, L):
         # a guard returning a Python int in the degenerate case: the return *type* depends on the sample (never on the
         # source alone: resamples of a constant class are constant)
         return lambda s, **kw: 0 if len(s.pos) == 0 or s.pos[0] == s.pos[-1] else float(s.pos[-1] - s.pos[0]) / 3.0
+    if name == "max_mult4":
+        # heavily skewed replicates (mostly 0, rarely 16 or 81): the acceleration of bca comes close to its bound 1/6
+        return lambda s, **kw: float((int(np.sum(s.pos == s.pos[-1])) - 1) ** 4) if len(s.pos) else float("nan")
     if name == "groupwise_fnr":
         return L.groupwise("fnr")
     if name == "group_sizes":
@@ -289,6 +302,10 @@ class RecSampler:
         self.raise_exc = next((f.get("exc") for f in faults or [] if f["kind"] == "sampler_raise"), None)
         self.fired = []
         self.mixed = bool(spec.get("__mixed_identity")) if isinstance(spec, dict) else False
+        # a stateful sampler that owns one work object and overwrites its arrays for every draw (legal: each call
+        # returns a Scores object holding the new resample); what each call returned is recorded as a snapshot
+        self.recycle = bool(spec.get("__recycle")) if isinstance(spec, dict) else False
+        self.work = None
 
     def __call__(self, source, **kw):
         k = len(self.inputs)
@@ -305,6 +322,13 @@ class RecSampler:
             out = source  # a legal sampler may hand back the source itself for some replicates
         else:  # counting: the j-th call returns a distinct, legal, deterministic resample
             out = counting_sample(source, k)
+            if self.recycle:
+                if self.work is None:
+                    self.work = counting_sample(source, k)
+                self.work.pos[:] = out.pos
+                self.work.neg[:] = out.neg
+                self.outputs.append(out)  # the snapshot: what the returned object held when it was returned
+                return self.work
         self.outputs.append(out)
         return out
 
@@ -417,7 +441,8 @@ def execute(scn, ctx):
         def make(target):
             """Fresh callbacks + the call to perform, bound to `target` (the shared source or a twin)."""
             inner_cfg = M.build_config(dict(sspec.get("inner", {}), nb_samples=1)) if s_kind == "recording" else None
-            sampler = RecSampler(s_kind, inner_cfg, dict(spec, __mixed_identity=bool(sspec.get("mixed"))), fl) if s_kind != "builtin" else None
+            sampler = RecSampler(s_kind, inner_cfg, dict(spec, __mixed_identity=bool(sspec.get("mixed")),
+                                                         __recycle=bool(sspec.get("recycle")) and named and not is_group), fl) if s_kind != "builtin" else None
             config = M.build_config(dict(sspec if s_kind == "builtin" else {}, **cfg), sampler=sampler) if s_kind == "builtin" else \
                 M.build_config(dict(cfg, sampling_method={"callable": s_kind}, stratified_sampling=sspec.get("outer_strat")), sampler=sampler)
             metric = mname if named else RecMetric(base_metric(mname, L), fl, target, ctx)
